@@ -406,7 +406,7 @@ def owned_objects(cls):
                 import sys
                 mod = getattr(sys.modules.get(getattr(o, "__module__", None) or ""), "__dict__", {})
                 for k, v in list(o.__globals__.items()):
-                    if k != "__builtins__" and mod.get(k, walk) is not v:
+                    if k != "__builtins__" and k not in mod:
                         walk(v, d + 1)
             for cell in o.__closure__ or ():
                 try:
@@ -525,6 +525,26 @@ def _deep_of(cls, allowed=None, full=True):
                      [_safe(lambda a=a: getattr(real, a.name) is a) for a in tup],
                      [_safe(lambda i=i: real[i] is tup[i]) for i in range(len(tup))]]
     out["fields"] = [_safe(lambda a=a: _field_row(a)) for a in tup] if full else None
+    if full:
+        out["ft_saw"] = allowed.get("__ft__")
+
+        def lab(v):
+            ow = getattr(v, "__dict__", {}).get("owner") if isinstance(v, type) else None
+            if isinstance(ow, str):
+                la = allowed.get(ow, "FOREIGN")
+                if la == "FOREIGN":
+                    foreign.append("resolves " + v.tok)
+                return v.tok + "@" + la
+            return getattr(v, "__name__", None) or str(v)
+
+        for m in ("__init__", "__attrs_init__"):
+            f = d.get(m)
+            if f is not None and slot_of(cls, m) == "gen":
+                import typing
+                # string annotations are resolved through the globals of the generated method ...
+                out["hints" + m] = attempt(lambda f=f: sorted((k, lab(v)) for k, v in typing.get_type_hints(f).items()))
+                # ... which must show the module as it was when THIS class was defined
+                out["ann_globals" + m] = attempt(lambda f=f: lab(f.__globals__["Ann"]) if "Ann" in f.__globals__ else None)
     for m in (("__init__", "__attrs_init__") if full else ()):
         f = d.get(m)
         if f is not None and slot_of(cls, m) == "gen":
@@ -660,6 +680,8 @@ class World:
         self.fp_bases = fp_bases
         self.sfx = case_suffix(case) + tag
         self.bases = {}
+        self.modules = {}
+        self.ft_seen = []
         self.mids = {}
         self.made = []
         self.plain_dicts = []          # (non-attrs class, snapshot of its __dict__ at creation)
@@ -837,7 +859,7 @@ class World:
             if k in x:
                 kw[k] = x[k]
         if x.get("ft"):
-            kw["field_transformer"] = identity_transformer
+            kw["field_transformer"] = self.transformer(x["ft"])
         if a["api"] == "attrS":
             if "collect_by_mro" in x:
                 kw["collect_by_mro"] = x["collect_by_mro"]
@@ -896,6 +918,32 @@ class World:
             if self.fp_bases:
                 self.base_fp[kind] = deep_of(b, self.allowed_of(b))
         return b
+
+    def transformer(self, kind):
+        """a field_transformer: the identity (True), one that OBSERVES what it is handed ("observe"), one that acts on
+        the documented difference between `alias is None` and an explicit alias ("alias")"""
+        if kind is True:
+            return identity_transformer
+
+        def ft(cls, fields):
+            self.ft_seen.append([[a.name, a.alias is None, bool(a.inherited), bool(a.kw_only), a.default is not NOTHING]
+                                 for a in fields])
+            if kind == "alias":
+                return [a.evolve(alias=a.name.lstrip("_") + "_") if a.alias is None and not a.inherited else a for a in fields]
+            return list(fields)
+
+        return ft
+
+    def module_for(self, name=None):
+        """the synthetic module (registered in sys.modules for the life of the universe) whose namespace the class
+        bodies are executed in: every definition binds and REBINDS names in it"""
+        import sys
+        key = (name or MODNAME) + self.sfx
+        m = self.modules.get(key)
+        if m is None:
+            m = self.modules[key] = types.ModuleType(key)
+            sys.modules[key] = m
+        return m
 
     def body_base(self, facts):
         """the class a body inherits from: the base of its kind, or (harness-only `plainMid`) an undecorated class in
@@ -982,11 +1030,17 @@ class World:
         api = x.get("fieldApi", "ib")
         self.cur_owner = f"K{self.n_classes}{self.sfx}"     # every callable created by this body belongs to this class
         self.cur_variant = x.get("variant", 0)
-        env = {"__name__": x.get("module", MODNAME), "Base": self.body_base(facts)}
+        env = self.module_for(x.get("module")).__dict__
+        env["Base"] = self.body_base(facts)
+        # names the string annotations of this body refer to: `Ann` is REBOUND by every definition, `Ann<n>` is new
+        env["Ann"] = marker(self.cur_owner, "ann")
+        env["Ann_" + x.get("name", "C")] = marker(self.cur_owner, "annN")     # new unless an earlier class had this name
         lines = [f"class {name}(Base):" if facts["base"] != "object" else f"class {name}:"]
         for i, f in enumerate(facts["fields"]):
             n = f["name"]
             ann = ": int" if f["annotated"] else ""
+            if f["annotated"] and x.get("strAnn"):
+                ann = ': "Ann"' if i % 2 == 0 else ': "Ann_%s"' % x.get("name", "C")
             if f["src"] == "plain":
                 lines.append(f"    {n}{ann}" + (" = 5" if f["hasDefault"] else ""))
                 continue
@@ -1035,19 +1089,24 @@ class World:
         return self._define(step)
 
     def close(self):
+        import sys
+        for k, m in self.modules.items():
+            if sys.modules.get(k) is m:
+                del sys.modules[k]
         if self._worker is not None:
             self._worker.shutdown(wait=True)
             self._worker = None
 
     def _define(self, step):
         self.n_classes += 1
+        n_ft = len(self.ft_seen)
         try:
             if "defDeco" in step:
                 facts = step["defDeco"]["c"]
                 raw = self.raw_class(facts)
                 cls = self.decos[step["defDeco"]["i"]](raw)
                 self.allowed[id(cls)] = (cls, {self.last_owner: "own", "B:" + facts["base"] + self.sfx: "base",
-                                               self.shared: "shared"})
+                                               self.shared: "shared", "__ft__": self.ft_seen[n_ft:]})
             else:
                 m = step["defMk"]["m"]
                 a = m["args"]
@@ -1068,8 +1127,11 @@ class World:
                     kw["class_body"] = self.mk_body
                 bases = self.mk_bases[m["base"]]
                 name = m.get("x", {}).get("name", "M") + self.sfx
+                if a.get("x", {}).get("ft"):
+                    kw["field_transformer"] = self.transformer(a["x"]["ft"])
                 cls = attr.make_class(name, self.mk_names if m["useList"] else self.mk_dict, bases, **kw)
-                self.allowed[id(cls)] = (cls, {"B:" + m["base"] + self.sfx: "base", self.shared: "shared"})
+                self.allowed[id(cls)] = (cls, {"B:" + m["base"] + self.sfx: "base", self.shared: "shared",
+                                               "__ft__": self.ft_seen[n_ft:]})
         except BaseException as e:  # noqa: BLE001
             return {"err": {"e": exc4(e)}}, None
         try:
